@@ -48,7 +48,7 @@ def step' (line : String) : String :=
       let alive := (if s.outPc = .read then "out," else "") ++ (if !s.pty && s.errPc = .read then "err," else "")
                    ++ (if s.hasStdin && s.inPc ≠ .done then "stdin," else "")
       "|".intercalate [(if s.mainPc = .done then showOutcome s.outcome else "pending"), hex s.capOut.flatten, hex s.capErr.flatten,
-        textOf s.capOut s.outPc, textOf s.capErr s.errPc, hex s.childStdin.flatten, toString s.closeCount,
+        textOf s.capOut s.outPc, textOf s.capErr s.errPc, hex s.childBytes, toString s.closeCount,
         toString s.kills, toString s.killsAfterReturn, hex s.echoed.flatten,
         (if s.mainPc = .done then "done" else "notdone"), alive]
     | _ => "bad-flags"
